@@ -345,6 +345,28 @@ func init() {
 		return c.ret(term.Const(64, uint64(reflectKind(t))))
 	}
 
+	Stubs["(*reflect.rtype).Elem"] = func(ex *Exec, c *CallCtx) []*callResult {
+		t := c.Args[0].(*OpaqueV).Data.(types.Type)
+		switch u := t.Underlying().(type) {
+		case *types.Pointer:
+			return c.ret(IfaceV{T: ex.ptrType("reflect", "rtype"), V: &OpaqueV{Kind: "rtype", Data: u.Elem()}})
+		case *types.Slice:
+			return c.ret(IfaceV{T: ex.ptrType("reflect", "rtype"), V: &OpaqueV{Kind: "rtype", Data: u.Elem()}})
+		}
+		abort("UNSUPPORTED", "reflect Type.Elem of %v", t)
+		return nil
+	}
+	Stubs["reflect.New"] = func(ex *Exec, c *CallCtx) []*callResult {
+		// a pointer to a new zero value of the (statically known) type, wrapped as a reflect.Value
+		iv := c.Args[0].(IfaceV)
+		t := iv.V.(*OpaqueV).Data.(types.Type)
+		obj := c.St.H.Alloc(Zero(t))
+		return c.ret(&OpaqueV{Kind: "reflect.Value", Data: IfaceV{T: types.NewPointer(t), V: PtrV{Obj: obj}}})
+	}
+	Stubs["(reflect.Value).Interface"] = func(ex *Exec, c *CallCtx) []*callResult {
+		return c.ret(c.Args[0].(*OpaqueV).Data.(IfaceV))
+	}
+
 	// ---- strconv ----
 	Stubs["strconv.AppendUint"] = func(ex *Exec, c *CallCtx) []*callResult {
 		base, _ := ex.concreteInt(c.St, c.Args[2].(*term.Term), true)
